@@ -208,6 +208,40 @@ def _frange(e, cache, atom):
         return r
     return rec(e)
 
+def truth(c, cache=None, atom=None):
+    """(may_be_true, may_be_false) of a boolean expression by interval + may-NaN evaluation of its comparisons
+    (non-relational: each comparison on its own).  (True, True) = nothing known."""
+    if cache is None:
+        cache = {}
+    def t(c):
+        if c.op == 'const':
+            return (bool(c.val), not bool(c.val))
+        if c.op in ('bnot', 'not'):
+            a, b = t(c.args[0]); return (b, a)
+        if c.op in ('band', 'and'):
+            a, b = t(c.args[0]), t(c.args[1]); return (a[0] and b[0], a[1] or b[1])
+        if c.op in ('bor', 'or'):
+            a, b = t(c.args[0]), t(c.args[1]); return (a[0] or b[0], a[1] and b[1])
+        if c.op in ('lt', 'le', 'gt', 'ge', 'eq', 'ne') and len(c.args) == 2 and all(X.is_float(x.ty) or X.is_int(x.ty) for x in c.args):
+            a, b = frange(c.args[0], cache, atom), frange(c.args[1], cache, atom)
+            op = c.op
+            if op in ('gt', 'ge'):
+                a, b = b, a; op = {'gt': 'lt', 'ge': 'le'}[op]
+            nan = a[2] or b[2]
+            if op == 'lt': return (a[0] < b[1], a[1] >= b[0] or nan)
+            if op == 'le': return (a[0] <= b[1], a[1] > b[0] or nan)
+            overlap = a[0] <= b[1] and b[0] <= a[1]
+            single = a[0] == a[1] == b[0] == b[1]
+            if op == 'eq': return (overlap, not single or nan)
+            return (not single or nan, overlap)
+        return (True, True)
+    return t(c)
+
+def pc_feasible(pc, atom=None):
+    """False only when some conjunct of the path condition can never hold (for any argument, NaN included)."""
+    cache = {}
+    return all(truth(c, cache, atom)[0] for c in pc)
+
 # round-to-nearest: |fl(x) - x| <= 2^-24 |x| (binary32; binary64 is covered a fortiori);
 # 2^-23.5 leaves room for the analyser's own double arithmetic
 def round_down(x):
